@@ -121,8 +121,11 @@ Definition ok_prefix (p : str) : bool :=
   negb (first_char_is (nth 0 c_sm_comment_char " "%char) p) &&
   negb (prefixb c_sel_sparql_kw p).
 
-Definition ok_local (p l : str) : bool :=
-  nospace l && negb (contains (p ++ Str ":") l) && negb (suffixb (Str ">") (Str ":" ++ l)).
+(** the local part of a prefixed name.  [once] = the code that expands the name
+    there touches the leading [prefix:] only; where it does not (C10-F9:
+    [str.replace] without a count) the local part must not hold [prefix:] again *)
+Definition ok_local (once : bool) (p l : str) : bool :=
+  nospace l && (once || negb (contains (p ++ Str ":") l)) && negb (suffixb (Str ">") (Str ":" ++ l)).
 
 (** an IRI that ends up as a class / node / predicate identifier *)
 Definition ok_iri (i : str) : bool :=
@@ -152,14 +155,14 @@ Definition pd_of (ns : nsdict) : pdict :=
     (dset ns dflt_shapes_namespace (match find_adequate_prefix ns with Some p => p | None => [] end)).
 
 (** a reference, where it is written; [full_ok] = may it be written without
-    brackets (class names, instantiation property) *)
-Definition ok_ref (ns : nsdict) (pd : pdict) (full_ok : bool) (r : iriref) : bool :=
+    brackets (class names, instantiation property); [once] = see [ok_local] *)
+Definition ok_ref (ns : nsdict) (pd : pdict) (full_ok once : bool) (r : iriref) : bool :=
   match r with
   | Full i => full_ok && ok_iri i && negb (prefixb (Str "<") i) &&
               match first_prefix pd i with None => true | Some _ => false end
   | Angle i => ok_iri i
   | Pref p l => match ns_of ns p with
-                | Some n => ok_local p l && ok_iri (n ++ l)
+                | Some n => ok_local once p l && ok_iri (n ++ l)
                 | None => false
                 end
   end.
@@ -168,7 +171,7 @@ Definition ok_fterm (ns : nsdict) (pd : pdict) (f : fterm) : bool :=
   match f with
   | FWild => true
   | FA => true
-  | FIri r => ok_ref ns pd false r
+  | FIri r => ok_ref ns pd false c_unprefix_sel_once r      (* NodeSelectorParser._unprefix_uri *)
   end.
 
 Definition is_wild (f : fterm) : bool := match f with FWild => true | _ => false end.
@@ -182,7 +185,7 @@ Definition ok_query (wf : str -> bool) (q : str) : bool :=
 
 Definition ok_selector (ns : nsdict) (pd : pdict) (wf : str -> bool) (sel : selector) : bool :=
   match sel with
-  | SelNode r => ok_ref ns pd false r
+  | SelNode r => ok_ref ns pd false c_unprefix_sel_once r   (* NodeSelectorParser._unprefix_uri *)
   | SelFocusSubj p o => negb (is_wild p) && ok_fterm ns pd p && ok_fterm ns pd o
   | SelFocusObj s p => negb (is_wild p) && ok_fterm ns pd p && ok_fterm ns pd s
   | SelSparql q => ok_query wf q
@@ -194,9 +197,10 @@ Definition is_iri_obj (x : obj) : bool :=
 Definition is_angle (r : iriref) : bool := match r with Angle _ => true | _ => false end.
 
 (** a label: bracketed or prefixed, without '@' (the item is split at its last
-    '@'), at least two characters long *)
+    '@'), at least two characters long.  The label parser cuts a prefixed label
+    at its first ':' (no [str.replace]): any local part will do *)
 Definition ok_label (ns : nsdict) (pd : pdict) (r : iriref) : bool :=
-  ok_ref ns pd false r && nochar "@"%char (show_ref r) && negb (Z.ltb (len (show_ref r)) 2) &&
+  ok_ref ns pd false true r && nochar "@"%char (show_ref r) && negb (Z.ltb (len (show_ref r)) 2) &&
   negb (suffixb (Str ",") (show_ref r)).
 
 Definition ok_item (ns : nsdict) (pd : pdict) (orc : oracles) (G : graph) (it : item) : bool :=
@@ -213,17 +217,17 @@ Definition C10_dom (tg : target) (orc : oracles) (G : graph) : bool :=
   let ns := t_ns tg in
   let pd := pd_of ns in
   wf_ns ns && wf_graph G &&
-  (* the instantiation property is written so that it resolves *)
-  ok_ref ns (reverse_keys_and_values ns) true (t_tau tg) &&
+  (* the instantiation property is written so that it resolves (utils.uri.unprefixize_uri_if_possible) *)
+  ok_ref ns (reverse_keys_and_values ns) true c_unprefix_ifp_once (t_tau tg) &&
   (* a target specification the constructor accepts *)
   (if t_all tg
    then match t_classes tg with None => true | Some _ => false end
    else xorb (match t_classes tg with None => false | Some _ => true end)
              (match t_items tg with None => false | Some _ => true end)) &&
-  (* class names resolve; at least one is given *)
+  (* class names resolve (utils.uri.unprefixize_uri_if_possible); at least one is given *)
   match t_classes tg with
   | None => true
-  | Some l => negb (Nat.eqb (List.length l) 0) && forallb (ok_ref ns pd true) l
+  | Some l => negb (Nat.eqb (List.length l) 0) && forallb (ok_ref ns pd true c_unprefix_ifp_once) l
   end &&
   (* all_classes_mode: every object of the instantiation property is an IRI, and none looks like a label key *)
   (if t_all tg
@@ -292,7 +296,8 @@ Definition rc_tau_literal (tg : target) (G : graph) : bool :=
   end.
 
 (** F9: a prefixed name, outside labels, whose local part contains its own
-    [prefix:] again -- [uri.replace(prefix + ":", namespace)] replaces every occurrence *)
+    [prefix:] again, expanded by a copy of [uri.replace(prefix + ":", namespace)]
+    that still replaces every occurrence (no copy left: no such root cause) *)
 Definition ref_repeats_prefix (r : iriref) : bool :=
   match r with Pref p l => contains (p ++ Str ":") l | _ => false end.
 
@@ -300,8 +305,10 @@ Definition fterm_repeats_prefix (f : fterm) : bool :=
   match f with FIri r => ref_repeats_prefix r | _ => false end.
 
 Definition rc_prefix_in_local (tg : target) : bool :=
-  ref_repeats_prefix (t_tau tg) ||
-  match t_classes tg with Some l => existsb ref_repeats_prefix l | None => false end ||
+  negb c_unprefix_ifp_once &&
+  (ref_repeats_prefix (t_tau tg) ||
+   match t_classes tg with Some l => existsb ref_repeats_prefix l | None => false end) ||
+  negb c_unprefix_sel_once &&
   match t_items tg with
   | Some its => existsb (fun it => match it_sel it with
                                    | SelNode r => ref_repeats_prefix r
